@@ -578,8 +578,9 @@ def check_mpm(ctx, case, d=None):
     nprng = np.random.default_rng(case['seed'])
     k, n, p = case['k'], case['n'], case['p']
     E = [nprng.uniform(0.15, 0.4)]
+    lo, hi = case.get('spacing', [0.35, 0.6])
     for _ in range(k - 1):
-        E.append(E[-1] + nprng.uniform(0.35, 0.6))
+        E.append(E[-1] + nprng.uniform(lo, hi))
     a = nprng.uniform(0.5, 2.0, size=k)
     y = np.array([sum(a[i] * math.exp(-E[i] * t) for i in range(k)) for t in range(n)])
     ncfg = rng.randint(12, 25)
@@ -633,6 +634,10 @@ def check_mpm(ctx, case, d=None):
         return (np.array(np_mpm(y + h * dy, k, p)) - np.array(np_mpm(y - h * dy, k, p))) / (2 * h)
     f1, f2 = fdiff(2e-2), fdiff(1e-2)
     fd = (4 * f2 - f1) / 3
+    if any(abs(f2[i] - f1[i]) > 1e-3 * abs(fd[i]) + 1e-10 for i in range(k)):
+        # the finite-difference reference is not in its linear regime (nearly rank-deficient pencil): no verdict
+        ctx.illcond += 1
+        return probs
     for i in range(k):
         got = res[i].deltas['A|r1'][cfg]
         sc = max(abs(fd[i]), np.max(np.abs(res[i].deltas['A|r1'])))
@@ -764,8 +769,8 @@ def gen_case(ctx):
     seed = rng.randrange(1 << 30)
     what = rng.choices(['gevp', 'vector_obs', 'prune', 'mpm', 'solver', 'refuse'], weights=[9, 2, 3, 3, 3, 1])[0]
     if what == 'mpm':
-        k = rng.choice([1, 1, 2, 2, 3, 4])
-        n = rng.randint(max(2 * k + 1, 6), 16)
+        k = rng.choice([1, 1, 2, 2, 3, 4, 4, 5, 5])
+        n = rng.randint(max(2 * k + 1, 6), 16) if k < 5 else rng.randint(12, 24)
         if rng.random() < 0.15:
             p = rng.choice([0, k - 1, n - k + 1, n, n + 1])
             p = max(p, 0)
@@ -775,7 +780,7 @@ def gen_case(ctx):
             p = rng.randint(k, n - k)
         if p is None:
             p = max(n // 2, k)
-        return {'what': 'mpm', 'seed': seed, 'k': k, 'n': n, 'p': p}
+        return {'what': 'mpm', 'seed': seed, 'k': k, 'n': n, 'p': p, 'spacing': rng.choice([[0.35, 0.6], [0.35, 0.6], [0.15, 0.3], [0.5, 0.9]])}
     if what == 'solver':
         return {'what': 'solver', 'seed': seed, 'N': rng.choice([2, 3, 3, 4, 4]), 'T': rng.randint(3, 8)}
     N = rng.choice([2, 3, 3, 4, 5])
